@@ -181,4 +181,20 @@ META['C12'] = {
   'level_text': 'Proved: an identifier H(prefix ++ enc x) with injective enc determines x up to an exhibited collision and ignores everything outside the projection; the self-delimiting "sia/<name>|" framing makes derived IDs of different kinds, parents or positions distinct up to collision; all distinguishers of the tree are bar-free and pairwise distinct (kernel-evaluated); the path set written/blanked by the v2 semantic encoding and the v1 ID pre-image equal the pinned effect-bearing tables (kernel-evaluated against /repo on every run). Injectivity of the field encodings is C11. The implementation is tied by recomputing derived IDs in the model and by the exhaustive single-field mutation oracle.',
 }
 
+META['C18'] = {
+  'rule': ('16 (thorough 300) chains built on the real implementation (mixed and v2-only eras, reverts), every honest block with v2 transactions (payments under all policy kinds, ephemeral parents, siafund claims, contract formation/revision/renewal/expiry, storage proofs with chain-index elements): '
+           'the whole v2 transaction set, three random sub-sets in random order (sometimes with a repeated transaction, i.e. duplicate leaves) and the block itself are sent through V2TransactionsMultiproof / V2Block EncodeTo+DecodeFrom; '
+           'oracle: every transaction re-encodes (individual proofs included) identically, decoder stops exactly at the end, block ID / commitment / ValidateBlock verdict unchanged, the encoder does not change its input, decoded proofs do not share memory; '
+           'model: the multiproof hashes, the inferred leaf count and multiproofSize are recomputed by the extracted model from the individual proofs (leaf hashes from the consensus package, not from the copy in package types), and all individual proofs are recomputed from leaf hashes + multiproof; '
+           'outlines: for each block four omitted subsets (none, all, random x2): OutlineBlock ID = block ID before and after the outline codec (through RPCRelayV2BlockOutline), Complete with a shuffled pool of some/all omitted transactions plus unrelated extras gives exactly the original block or exactly the hashes omitted-and-not-offered, also recomputed by the model'),
+  'trusted_base': [KERNEL, EXTRACT, HARNESS, BLAKE,
+                   'verif hooks: consensus/verif_hooks.go (leaf constructors), gateway/verif_hooks.go (RPC object codec wrappers)',
+                   'forEachElementLeaf order and the proofless-prefix layout are re-derived in the harness (harness/c18.go mpLeaves, splitSetEncoding) and checked against the bytes'],
+  'assumptions': ['the theorem is per tree; the grouping of leaves into trees by proof length, the tree base (clearBits) and the leaf-count inference are executable model definitions tied by correspondence, not yet theorems',
+                  'sort.Search on an index-sorted slice is modelled as the longest prefix with index < mid (equal on sorted input)',
+                  'in-place writes into preallocated proofs are modelled as building the proof bottom-up (equal when the allocated length is the tree height, which the codec guarantees)',
+                  'hash collisions appear as the Collision disjunct (outline completion); the multiproof theorem needs none'],
+  'level_text': 'Proved for every perfect tree of any height at any base and every non-empty index-sorted leaf list (duplicates allowed) whose proofs are sibling paths of that tree: computeMultiproof does not panic, yields exactly multiproofSize hashes, and expandMultiproof from the leaf hashes alone restores every individual proof bit-for-bit, recomputes the root and consumes exactly the multiproof. Proved for outlines over arbitrary transaction/hash types: the outline has the block\'s hashes whatever is omitted (same commitment and ID), Complete reports exactly omitted-and-not-offered, and any pool containing the omitted transactions (any order/extras) restores exactly the block, up to an exhibited hash collision. The implementation is tied by recomputing multiproofs, leaf counts, sizes, restored proofs and completion results on generated chains. Partial: cross-tree grouping and numLeaves inference are correspondence only.',
+}
+
 NOT_YET = {}
